@@ -4,7 +4,6 @@ import (
 	"bytes"
 	"fmt"
 	"os"
-	"strings"
 	"testing"
 	"time"
 
@@ -176,13 +175,7 @@ func runServe(c ServeCase) core.Result {
 			copy(id[:], fmt.Sprintf("-LE0001-%012d", li))
 			var p *speer.Peer
 			var err error
-			for try := 0; try < 40; try++ {
-				p, err = speer.Dial(sess.IP(1+li), clientAddr, speer.Opts{InfoHash: ih, PeerID: id, Fast: c.Fast[li], Ext: true, Reqq: 250}, 2*time.Second)
-				if err == nil || !strings.Contains(err.Error(), "refused") {
-					break
-				}
-				time.Sleep(25 * time.Millisecond)
-			}
+			p, err = speer.DialPatient(sess.IP(1+li), clientAddr, speer.Opts{InfoHash: ih, PeerID: id, Fast: c.Fast[li], Ext: true, Reqq: 250})
 			if err != nil {
 				errs <- fmt.Sprintf("leecher %d cannot connect: %v", li, err)
 				return
